@@ -1,4 +1,4 @@
-\* quick: 2 rows + 1 row, all flags free, zero-length rows, adjacent or padded functions,
+\* quick: 2 rows + 1 row, all flags free, zero-length rows, adjacent functions (padding: _T),
 \* stable arrangement of equal addresses (what sort_unstable does for <= 20 elements), std binary search
 CONSTANTS
   MaxRows1 = 2
@@ -8,7 +8,7 @@ CONSTANTS
   Cols = {1}
   Stmts = {TRUE, FALSE}
   Pes = {TRUE, FALSE}
-  Gaps = {0, 1}
+  Gaps = {0}
   Stable = TRUE
   AnyHit = FALSE
   Allowed = {}
